@@ -11,8 +11,8 @@ Lemma do_len_checksum_agree : mem_s "py_do_len_checksum" translated = true ->
   Ok (Tup [gnone; Tup [gbytes (fst lc); gbytes (snd lc)]; Tup []]).
 Proof.
   intros Hin p cls id. first [untranslated Hin | clear Hin].
-  unfold py_do_len_checksum, len_cksum, optg. cbv [U2 lU].
-  destruct p as [b|];
+  all: unfold py_do_len_checksum, len_cksum, optg. cbv [U2 lU].
+  all: destruct p as [b|];
     cbn [g_is_none gbytes gnone gint bind g_len g_val2bytes g_add g_calc_checksum fst snd];
     match goal with |- context [v2b ?v ?t] => destruct (v2b v t) as [l|e] end;
     cbn [bind g_add gbytes g_calc_checksum fst snd]; rewrite <- ?app_assoc; reflexivity.
